@@ -297,7 +297,7 @@ PUBLIC_OPS = [
     ("backfill", lambda t, r: __import__("bermuda").utils.backfill(t)),
     ("json_roundtrip", lambda t, r: Triangle.from_dict(t.to_dict())),
     ("period_merge", lambda t, r: t.period_merge(_period_source(t, r))),
-    ("loose_period_merge", lambda t, r: __import__("bermuda").utils.merge.loose_period_merge(t, _period_source(t, r, loose=True))),
+    ("loose_period_merge", lambda t, r: __import__("importlib").import_module("bermuda.utils.merge").loose_period_merge(t, _period_source(t, r, loose=True))),
     ("to_incremental_dups", lambda t, r: _with_duplicate(t, r).to_incremental()),
     ("to_cumulative_dups", lambda t, r: _with_duplicate(t, r).to_cumulative()),
     ("summarize_dups", lambda t, r: _with_duplicate(t, r).summarize()),
